@@ -12,7 +12,7 @@ pub struct C17;
 
 const RT: &str = "{\"resolveType\":true}";
 
-fn gen_c17(c: &mut Choices) -> Case {
+pub fn gen_c17(c: &mut Choices) -> Case {
     let mut g = RtGen::new(c);
     let n = g.c.range(1, 3);
     let mut members = vec![];
@@ -396,7 +396,7 @@ impl EmitGen<'_, '_, '_> {
     }
 }
 
-fn gen_c19(c: &mut Choices) -> Case {
+pub fn gen_c19(c: &mut Choices) -> Case {
     let mut g = TypeGen::new(c);
     let negative = g.c.chance(1, 8);
     let n = g.c.range(1, 5);
